@@ -110,7 +110,7 @@ def _run_one(entry: dict, repo: str) -> dict:
 
 def run(props: Optional[List[str]] = None, ids: Optional[List[str]] = None, repo: Optional[str] = None, jobs: int = 8) -> List[dict]:
     repo = repo or REPO
-    corpus = [e for e in load_corpus() if (not props or e['prop'] in props) and (not ids or e['id'] in ids)]
+    corpus = [e for e in load_corpus() if (not props or e['prop'] in props) and (not ids or any(i == e['id'] or i in e['id'] for i in ids))]
     results = []
     if jobs > 1 and len(corpus) > 2:
         with ProcessPoolExecutor(max_workers=jobs) as ex:
